@@ -409,6 +409,8 @@ def main():
         undecided_obligations=[n for n, _ in undecided],
         samples=[dict(obligation=n, instances=len(results[n]), backend=results[n][0]["backend"]) for n in sorted(results)[:8]] or [dict(note="no obligations")],
         machinery_errors=errors,
+        slowest_obligations=[dict(obligation=n, slowest_instance_s=round(s, 2), instances=len(results[n])) for s, n in sorted(((max(r["seconds"] for r in rs), n) for n, rs in results.items() if rs), reverse=True)[:8]],
+        solver_budget_s=timeout_ms / 1000,
     )
     if regex_names:
         cov["regex_language_facts"] = [dict(obligation=n, verdict=results[n][0]["verdict"], backend=results[n][0]["backend"], seconds=round(results[n][0]["seconds"], 2),
